@@ -1,5 +1,7 @@
 # Source of MANIFEST.json (run gen_manifest.py after editing).
 ENGINES = [
+    {"name": "E4-faults", "path": "mc/faults.py", "serves_properties": ["C12"],
+     "kind_free_text": "call-indexed fault injector for user callbacks: every call index x fault kind is enumerated"},
     {"name": "E1-choice", "path": "mc/explore_choice.py", "serves_properties": ["C01"],
      "kind_free_text": "stateless DFS over choice points of the real code, weighted, deviation-bounded"},
     {"name": "E2-bfs", "path": "mc/explore_bfs.py", "serves_properties": ["C09", "C18", "C19"],
@@ -76,6 +78,12 @@ CLAIMED = {
         technique="complete enumeration of differentiable matrix class x option lattice; finite-difference oracle over free parameter entries",
         text="Every DifferentiableMatrix class and option (sign +-1, lower/upper, inner matrix, SoftAbs coefficients, repeated eigenvalues, block compositions) at sizes 1..3(4): grad_log_abs_det and grad_quadratic_form_inv against central differences of the dense formulas over exactly the free parameter entries, including structure (zeros outside the triangle, tuple of blocks).",
         note="FD step 1e-5, tolerance 2e-6 relative; symmetric perturbations for symmetric-array parameters.",
+    ),
+    "C12": dict(
+        engine="E4-faults", category="fault_enumeration", design_ref="DESIGN.md section 3 (C12)",
+        technique="exhaustive enumeration of (callback, call index, fault kind) injection points inside driver chains and inside direct solver calls",
+        text="For 9 integrator/system/solver combinations x 4 transition types, a fault-free run counts the calls of every user callback (density, gradient, constraint, Jacobian, metric, Hessian, VJP/MHP/MTP and their returned closures) inside the integration transition; then for every call index and every fault kind (NaN, +inf, -inf; ValueError and LinAlgError while a solve_* frame is active; forced non-convergence at every solver call index) the run is repeated. Oracle: sample returns, state finite and equal to the pre-transition state or a completed step, matching error flag set and accept_stat 0, Metropolis does not move after an integrator error, the chain continues. The five solvers are also called directly under the same fault menu: only ConvergenceError may escape and any return must satisfy the convergence criterion re-evaluated fault-free.",
+        note="Quick tier arms faults in the first iteration only; exceptions are injected only inside iterative solves as the property states.",
     ),
     "C18": dict(
         engine="E2-bfs", category="model_checking", design_ref="DESIGN.md section 4 (C18)",
